@@ -655,3 +655,310 @@ Proof.
            unfold pempty. tauto.
         -- apply Hgo; apply ref_eqb_false; assumption.
 Qed.
+
+(** ** The cache *)
+
+Section ZCacheSec.
+Variable gt : ref -> ref -> bool.
+Variable C : Type.
+Variable cget : C -> N -> list ref -> list nat -> option ref.
+Variable cadd : C -> N -> list ref -> list nat -> ref -> C.
+
+(** the only thing assumed about the cache: what it serves after an insertion
+    is the inserted entry or something it served before *)
+Definition zlossy : Prop :=
+  forall c k a m r k' a' m' r', cget (cadd c k a m r) k' a' m' = Some r' ->
+    (k' = k /\ a' = a /\ m' = m /\ r' = r) \/ cget c k' a' m' = Some r'.
+
+Hypothesis Hlossy : zlossy.
+
+(** an entry is correct in table [s] (for the variable order of [s]: the
+    subset entries are keyed by variable number) *)
+Definition zentry_ok (s : snap) (code : N) (args : list ref) (nums : list nat) (r : ref) : Prop :=
+  match args, nums with
+  | [f; g], [] => forall o, code = zop_code o ->
+      exists P Q, ZDen s f P /\ ZDen s g Q /\ ZDen s r (pbin o P Q)
+  | [f], [var] => forall o, code = zsub_code o ->
+      exists P vl, nth_error (s_v2l s) var = Some vl /\ ZDen s f P /\ ZDen s r (psub o vl P)
+  | _, _ => True
+  end.
+
+Definition ZCacheOK (s : snap) (c : C) : Prop :=
+  forall code args nums r, cget c code args nums = Some r -> zentry_ok s code args nums r.
+
+Lemma zentry_ok_extends : forall s s' code args nums r, ZbddOK s -> extends s s' ->
+  zentry_ok s code args nums r -> zentry_ok s' code args nums r.
+Proof.
+  intros s s' code args nums r B X. unfold zentry_ok.
+  destruct args as [|f [|g [|x rest]]]; auto.
+  - destruct nums as [|var [|y rest]]; auto.
+    intros Hx o Hc. destruct (Hx o Hc) as [P [vl [Ev [A D]]]]. exists P, vl.
+    rewrite (ext_v2l _ _ X). split; [exact Ev|]. split; eapply zden_extends; eauto.
+  - destruct nums as [|var rest]; auto.
+    intros Hx o Hc. destruct (Hx o Hc) as [P [Q [A [A' D]]]]. exists P, Q.
+    repeat split; eapply zden_extends; eauto.
+Qed.
+
+Lemma zcacheok_extends : forall s s' c, ZbddOK s -> extends s s' -> ZCacheOK s c -> ZCacheOK s' c.
+Proof. intros s s' c B X O code args nums r E. eapply zentry_ok_extends; eauto. Qed.
+
+Lemma zcacheok_add : forall s c code args nums r, ZCacheOK s c -> zentry_ok s code args nums r ->
+  ZCacheOK s (cadd c code args nums r).
+Proof.
+  intros s c code args nums r O Hn code' args' nums' r' E.
+  destruct (Hlossy _ _ _ _ _ _ _ _ _ E) as [[-> [-> [-> ->]]]|E']; [exact Hn | apply (O _ _ _ _ E')].
+Qed.
+
+Definition zresult_ok (s : snap) (res : option (snap * C * ref)) (R : fpred) : Prop :=
+  exists s' c' r, res = Some (s', c', r) /\
+    ZbddOK s' /\ extends s s' /\ ZCacheOK s' c' /\ ZDen s' r R.
+
+Lemma zresult_ext : forall s res R R', peq R R' -> zresult_ok s res R -> zresult_ok s res R'.
+Proof.
+  intros s res R R' Hp (s' & c' & r & E & B & X & O & D).
+  exists s', c', r. repeat (split; [assumption|]). apply (zden_ext s' r R R' D Hp).
+Qed.
+
+Lemma zresult_here : forall s c r R, ZbddOK s -> ZCacheOK s c -> ZDen s r R ->
+  zresult_ok s (Some (s, c, r)) R.
+Proof.
+  intros s c r R B O D. exists s, c, r. split; [reflexivity|]. split; [exact B|].
+  split; [apply extends_refl|]. split; [exact O | exact D].
+Qed.
+
+(** a recursive result becomes the lo child of a new node whose hi child is an old edge *)
+Lemma zstep_mk : forall s res R L hi PA,
+  ZbddOK s -> zresult_ok s res R -> L < nlevels s -> ZDen s hi PA -> L < rlevel s hi -> sup L R ->
+  zresult_ok s
+    (match res with
+     | None => None
+     | Some (s1, c1, lo) => let '(s2, h) := zmk_node s1 L hi lo in Some (s2, c1, h)
+     end) (node_pred L PA R).
+Proof.
+  intros s res R L hi PA B (s1 & c1 & lo & E & B1 & X1 & O1 & D1) HL DA Lh SR. subst res.
+  destruct (zmk_node s1 L hi lo) as [s2 h] eqn:Em.
+  pose proof (zden_extends s s1 hi PA B X1 DA) as DA1.
+  assert (HL1 : L < nlevels s1) by (rewrite (ext_nlevels _ _ X1); exact HL).
+  assert (Lh1 : L < rlevel s1 hi) by (rewrite (ext_rlevel _ _ _ X1 (zden_ok _ _ _ DA)); exact Lh).
+  assert (Ll1 : L < rlevel s1 lo).
+  { apply (zden_level s1 lo R (S L) B1 D1); [lia | exact SR]. }
+  destruct (zmk_node_ok s1 L hi lo PA R s2 h B1 HL1 DA1 D1 Lh1 Ll1 Em) as (B2 & X2 & D2 & _).
+  exists s2, c1, h. split; [reflexivity|]. split; [exact B2|].
+  split; [apply (extends_trans _ _ _ X1 X2)|]. split; [|exact D2].
+  apply (zcacheok_extends s1 s2 c1 B1 X2 O1).
+Qed.
+
+(** storing the result of a binary operator in the cache *)
+Lemma zfinish : forall s res R op f g P Q,
+  ZbddOK s -> zresult_ok s res R -> ZDen s f P -> ZDen s g Q -> peq R (pbin op P Q) ->
+  zresult_ok s
+    (match res with
+     | None => None
+     | Some (s', c', h) => Some (s', cadd c' (zop_code op) [f; g] [] h, h)
+     end) R.
+Proof.
+  intros s res R op f g P Q B (s' & c' & h & E & B' & X & O & D) DF DG Hp. subst res.
+  exists s', (cadd c' (zop_code op) [f; g] [] h), h.
+  split; [reflexivity|]. split; [exact B'|]. split; [exact X|]. split; [|exact D].
+  apply zcacheok_add; [exact O|]. simpl. intros o Ho. apply zop_code_inj in Ho. subst o.
+  exists P, Q. split; [apply (zden_extends s s' f P B X DF)|].
+  split; [apply (zden_extends s s' g Q B X DG)|]. apply (zden_ext s' h R _ D Hp).
+Qed.
+
+(** ** union, intersection, difference *)
+
+Lemma zapply_S : forall n s c op f g,
+  zapply gt C cget cadd (S n) s c op f g =
+    match zterminal s op f g with
+    | ZTFail => None
+    | ZTDone r => Some (s, c, r)
+    | ZTGo =>
+      let '(f, g) := if zcommutes op && gt f g then (g, f) else (f, g) in
+      match cget c (zop_code op) [f; g] [] with
+      | Some h => Some (s, c, h)
+      | None =>
+        match zget s f, zget s g with
+        | Some fnode, Some gnode =>
+          let res :=
+            match lcmp (vlevel fnode) (vlevel gnode) with
+            | Lt =>
+              match zkids fnode, vlevel fnode with
+              | Some (fhi, flo), Some flevel =>
+                match op with
+                | ZUnion | ZDiff =>
+                  match zapply gt C cget cadd n s c op flo g with
+                  | None => None
+                  | Some (s1, c1, lo) =>
+                    let '(s2, h) := zmk_node s1 flevel fhi lo in Some (s2, c1, h)
+                  end
+                | ZIntsec => zapply gt C cget cadd n s c op flo g
+                end
+              | _, _ => None
+              end
+            | Eq =>
+              match zkids fnode, zkids gnode, vlevel fnode with
+              | Some (fhi, flo), Some (ghi, glo), Some flevel =>
+                match zapply gt C cget cadd n s c op fhi ghi with
+                | None => None
+                | Some (s1, c1, hi) =>
+                  match zapply gt C cget cadd n s1 c1 op flo glo with
+                  | None => None
+                  | Some (s2, c2, lo) =>
+                    let '(s3, h) := zmk_node s2 flevel hi lo in Some (s3, c2, h)
+                  end
+                end
+              | _, _, _ => None
+              end
+            | Gt =>
+              match zkids gnode, vlevel gnode with
+              | Some (ghi, glo), Some glevel =>
+                match op with
+                | ZUnion =>
+                  match zapply gt C cget cadd n s c op f glo with
+                  | None => None
+                  | Some (s1, c1, lo) =>
+                    let '(s2, h) := zmk_node s1 glevel ghi lo in Some (s2, c1, h)
+                  end
+                | ZIntsec | ZDiff => zapply gt C cget cadd n s c op f glo
+                end
+              | _, _ => None
+              end
+            end in
+          match res with
+          | None => None
+          | Some (s', c', h) => Some (s', cadd c' (zop_code op) [f; g] [] h, h)
+          end
+        | _, _ => None
+        end
+      end
+    end.
+Proof. reflexivity. Qed.
+
+Theorem zapply_ok : forall op fuel s c f g P Q,
+  ZbddOK s -> ZCacheOK s c -> ZDen s f P -> ZDen s g Q ->
+  nlevels s - Nat.min (rlevel s f) (rlevel s g) < fuel ->
+  zresult_ok s (zapply gt C cget cadd fuel s c op f g) (pbin op P Q).
+Proof.
+  intros op. induction fuel as [|n IH]; intros s c f g P Q B O DF DG Hfuel; [lia|].
+  rewrite zapply_S.
+  pose proof (zterminal_ok s op f g P Q B DF DG) as Ht.
+  destruct (zterminal s op f g) as [|r|]; [destruct Ht | apply zresult_here; assumption |].
+  destruct Ht as [Hne [Hf1 Hg1]].
+  (* operand order of the commutative operators *)
+  assert (Hsw : exists f' g' P' Q',
+            (if zcommutes op && gt f g then (g, f) else (f, g)) = (f', g') /\
+            ZDen s f' P' /\ ZDen s g' Q' /\ peq (pbin op P' Q') (pbin op P Q) /\ f' <> g' /\
+            (forall t, f' = RT t -> term_val s t = Some 1%N) /\
+            (forall t, g' = RT t -> term_val s t = Some 1%N) /\
+            Nat.min (rlevel s f') (rlevel s g') = Nat.min (rlevel s f) (rlevel s g)).
+  { destruct (zcommutes op && gt f g) eqn:Esw.
+    - apply andb_true_iff in Esw. destruct Esw as [Ecm _].
+      exists g, f, Q, P. split; [reflexivity|]. split; [exact DG|]. split; [exact DF|].
+      split; [apply pbin_comm; exact Ecm|]. split; [congruence|].
+      split; [exact Hg1|]. split; [exact Hf1 | apply Nat.min_comm].
+    - exists f, g, P, Q. split; [reflexivity|]. split; [exact DF|]. split; [exact DG|].
+      split; [intros S; reflexivity|]. auto. }
+  destruct Hsw as (f' & g' & P' & Q' & Esw & DF' & DG' & Hpq & Hne' & Hf1' & Hg1' & Hmin).
+  rewrite Esw. rewrite <- Hmin in Hfuel.
+  clear Esw Hmin Hne Hf1 Hg1 DF DG.
+  apply (zresult_ext s _ (pbin op P' Q') _ Hpq). clear Hpq P Q f g.
+  pose proof (zo_wf s B) as H.
+  destruct (cget c (zop_code op) [f'; g'] []) as [h|] eqn:Ec.
+  - (* cache hit *)
+    pose proof (O _ _ _ _ Ec op eq_refl) as Oe. simpl in Oe.
+    destruct Oe as [P0 [Q0 [D0 [D0' Dh]]]].
+    exists s, c, h. split; [reflexivity|]. split; [exact B|]. split; [apply extends_refl|].
+    split; [exact O|].
+    apply (zden_ext s h _ _ Dh). apply pbin_ext.
+    + apply (zden_unique s f' P0 P' D0 DF').
+    + apply (zden_unique s g' Q0 Q' D0' DG').
+  - destruct (zget_total s f' (zden_ok _ _ _ DF')) as [vf Evf].
+    destruct (zget_total s g' (zden_ok _ _ _ DG')) as [vg Evg].
+    rewrite Evf, Evg. cbv zeta.
+    apply (zfinish s _ (pbin op P' Q') op f' g' P' Q' B); [|exact DF'|exact DG'|intros S; reflexivity].
+    pose proof (lcmp_cases s f' g' vf vg B Evf Evg) as Hl.
+    destruct (lcmp (vlevel vf) (vlevel vg)).
+    + (* same level *)
+      destruct Hl as [(idf & ndf & idg & ndg & -> & -> & Enf & Eng & -> & -> & Hlev)|(tf & tg & -> & ->)].
+      2:{ exfalso. apply Hne'. f_equal.
+          apply (term_val_inj s tf tg 1%N H (Hf1' tf eq_refl) (Hg1' tg eq_refl)). }
+      destruct (znode_facts s idf ndf P' B DF' Enf)
+        as (Sf & Lf & Rf & fhi & flo & PA & PB & Ecf & DA & DB & LA & LB & HP & SA & SB).
+      destruct (znode_facts s idg ndg Q' B DG' Eng)
+        as (Sg & Lg & Rg & ghi & glo & QA & QB & Ecg & DA' & DB' & LA' & LB' & HQ & SA' & SB').
+      simpl zkids. simpl vlevel. rewrite Ecf, Ecg, Sf. rewrite Rf, Rg in Hfuel.
+      rewrite <- Hlev in *.
+      pose proof (rlevel_le s H (eref fhi)). pose proof (rlevel_le s H (eref ghi)).
+      pose proof (rlevel_le s H (eref flo)). pose proof (rlevel_le s H (eref glo)).
+      destruct (IH s c (eref fhi) (eref ghi) PA QA B O DA DA' ltac:(lia))
+        as (s1 & c1 & hi & E1 & B1 & X1 & O1 & D1).
+      rewrite E1.
+      assert (Hfuel2 : nlevels s1 - Nat.min (rlevel s1 (eref flo)) (rlevel s1 (eref glo)) < n).
+      { rewrite (ext_nlevels _ _ X1), (ext_rlevel _ _ _ X1 (zden_ok _ _ _ DB)),
+          (ext_rlevel _ _ _ X1 (zden_ok _ _ _ DB')). lia. }
+      destruct (IH s1 c1 (eref flo) (eref glo) PB QB B1 O1
+                  (zden_extends s s1 _ _ B X1 DB) (zden_extends s s1 _ _ B X1 DB') Hfuel2)
+        as (s2 & c2 & lo & E2 & B2 & X2 & O2 & D2).
+      rewrite E2.
+      destruct (zmk_node s2 (nlevel ndf) hi lo) as [s3 h] eqn:Em.
+      pose proof (zden_extends s1 s2 hi _ B1 X2 D1) as D1'.
+      assert (HL2 : nlevel ndf < nlevels s2)
+        by (rewrite (ext_nlevels _ _ X2), (ext_nlevels _ _ X1); exact Lf).
+      assert (Lh2 : nlevel ndf < rlevel s2 hi).
+      { apply (zden_level s2 hi _ (S (nlevel ndf)) B2 D1'); [lia|].
+        apply (pbin_sup op _ PA QA SA SA'). }
+      assert (Ll2 : nlevel ndf < rlevel s2 lo).
+      { apply (zden_level s2 lo _ (S (nlevel ndf)) B2 D2); [lia|].
+        apply (pbin_sup op _ PB QB SB SB'). }
+      destruct (zmk_node_ok s2 _ hi lo _ _ s3 h B2 HL2 D1' D2 Lh2 Ll2 Em) as (B3 & X3 & D3 & _).
+      exists s3, c2, h. split; [reflexivity|]. split; [exact B3|].
+      split; [apply (extends_trans _ _ _ X1 (extends_trans _ _ _ X2 X3))|].
+      split; [apply (zcacheok_extends s2 s3 c2 B2 X3 O2)|].
+      apply (zden_ext s3 h _ _ D3). intros S.
+      rewrite (pbin_node_node op (nlevel ndf) PA PB QA QB SB SB' S).
+      symmetry. apply pbin_ext; assumption.
+    + (* f' above g' *)
+      destruct Hl as (idf & ndf & -> & Enf & -> & Hlt).
+      destruct (znode_facts s idf ndf P' B DF' Enf)
+        as (Sf & Lf & Rf & fhi & flo & PA & PB & Ecf & DA & DB & LA & LB & HP & SA & SB).
+      simpl zkids. simpl vlevel. rewrite Ecf, Sf. rewrite Rf in Hfuel.
+      pose proof (rlevel_le s H (eref flo)). pose proof (rlevel_le s H g').
+      assert (SQ : sup (nlevel ndf) Q')
+        by (intros S HS; apply (zden_below s g' Q' _ S B DG' Hlt HS)).
+      pose proof (IH s c (eref flo) g' PB Q' B O DB DG' ltac:(lia)) as IH1.
+      assert (Hp : peq (pbin op P' Q')
+                 (match op with
+                  | ZUnion | ZDiff => node_pred (nlevel ndf) PA (pbin op PB Q')
+                  | ZIntsec => pbin op PB Q'
+                  end)).
+      { intros S. rewrite <- (pbin_node_below op (nlevel ndf) PA PB Q' SB SQ S).
+        apply pbin_ext; [exact HP | intros S'; reflexivity]. }
+      apply (zresult_ext s _ _ _ (fun S => iff_sym (Hp S))).
+      destruct op.
+      * apply zstep_mk; auto. apply pbin_sup; assumption.
+      * exact IH1.
+      * apply zstep_mk; auto. apply pbin_sup; assumption.
+    + (* g' above f' *)
+      destruct Hl as (idg & ndg & -> & Eng & -> & Hlt).
+      destruct (znode_facts s idg ndg Q' B DG' Eng)
+        as (Sg & Lg & Rg & ghi & glo & QA & QB & Ecg & DA' & DB' & LA' & LB' & HQ & SA' & SB').
+      simpl zkids. simpl vlevel. rewrite Ecg, Sg. rewrite Rg in Hfuel.
+      pose proof (rlevel_le s H (eref glo)). pose proof (rlevel_le s H f').
+      assert (SP : sup (nlevel ndg) P')
+        by (intros S HS; apply (zden_below s f' P' _ S B DF' Hlt HS)).
+      pose proof (IH s c f' (eref glo) P' QB B O DF' DB' ltac:(lia)) as IH1.
+      assert (Hp : peq (pbin op P' Q')
+                 (match op with
+                  | ZUnion => node_pred (nlevel ndg) QA (pbin op P' QB)
+                  | ZIntsec | ZDiff => pbin op P' QB
+                  end)).
+      { intros S. rewrite <- (pbin_below_node op (nlevel ndg) P' QA QB SP SB' S).
+        apply pbin_ext; [intros S'; reflexivity | exact HQ]. }
+      apply (zresult_ext s _ _ _ (fun S => iff_sym (Hp S))).
+      destruct op.
+      * apply zstep_mk; auto. apply pbin_sup; assumption.
+      * exact IH1.
+      * exact IH1.
+Qed.
+
+End ZCacheSec.
